@@ -3768,7 +3768,7 @@ class DecVarSub(VarSub):
         var_name = '' if not self.name else 'slice of {}: '.format(self.name)
         string = var_name
         expr = 'event-wise ' if len(self.event_adapt) > 1 else ''
-        expr += 'static ' if self.fixed else 'affinely adaptive '
+        expr += 'static ' if self.is_fixed() else 'affinely adaptive '
 
         if isinstance(self.indices, np.ndarray):
             string += 'x'.join([str(dim) for dim in self.indices.shape]) + ' '
@@ -3782,10 +3782,19 @@ class DecVarSub(VarSub):
 
         return string
 
+    def is_fixed(self):
+        """
+        False if any of the selected entries is affinely adaptive by now:
+        the slice may have been created before the adaptation was declared.
+        """
+
+        return self.fixed and self.dvars.is_fixed(self.indices)
+
     def to_affine(self):
 
         expr = super().to_affine()
-        return DecAffine(self.dro_model, expr, self.event_adapt, self.fixed)
+        return DecAffine(self.dro_model, expr, self.event_adapt,
+                         self.is_fixed())
 
     def get(self, rvar=None):
         """
@@ -3868,7 +3877,7 @@ class DecVarSub(VarSub):
     def E(self):
 
         return DecAffine(self.dro_model, self.to_affine(),
-                         fixed=self.fixed, ctype='E')
+                         fixed=self.is_fixed(), ctype='E')
 
     def __call__(self, *args):
 
